@@ -15,6 +15,8 @@ import logging
 _env = {}
 
 
+import sys
+
 class BaseBoom(BaseException):
     """A BaseException that is not an Exception (like KeyboardInterrupt)."""
 
@@ -220,6 +222,25 @@ class Runner:
                 raise AssertionError(f'action {a} not allowed here')
 
         def interp(inval, has):
+            # `guard`: the whole body sits in a protected block whose clean-up section YIELDS (it waits for a
+            # release) when the generator is closed. Legal Python; stop()/reset() from outside behave as for any body.
+            guard = spec.get('guard')
+            if guard == 'exc':
+                try:
+                    yield from interp0(inval, has)
+                except GeneratorExit:
+                    yield 'release'
+                    raise
+            elif guard == 'fin':
+                try:
+                    yield from interp0(inval, has)
+                finally:
+                    if isinstance(sys.exc_info()[1], GeneratorExit):
+                        yield 'release'
+            else:
+                yield from interp0(inval, has)
+
+        def interp0(inval, has):
             if has:
                 run.log.append(f'recv({i},{run.enc(inval)})')
             for k, a in enumerate(script):
@@ -377,6 +398,9 @@ def run_case(case):
     for the op it happened in, and for the ops that could not be run), never a failure of the runner."""
     import signal
     outs = []
+    # a generator that yields while it is closed by the garbage collector: CPython reports 'generator ignored
+    # GeneratorExit' through the unraisable hook; it is not an observation of the library
+    sys.unraisablehook = lambda *a: None
     signal.signal(signal.SIGALRM, _alarm)
     signal.setitimer(signal.ITIMER_REAL, CASE_TIMEOUT)
     r = None
@@ -402,5 +426,63 @@ def run_case(case):
     return outs
 
 
+def run_esp(case):
+    """The routine that plays a pattern (EventStreamPlayer, a Routine subclass) is operated on from inside itself
+    (from a value function of its pattern, while the player is Running) with clean-up entries registered.
+    Observation: everything the body and the clean-up functions logged, the player's state after every next()."""
+    import signal
+    from sc3.seq.eventstream import EventStreamPlayer, CleanupEntry
+    from sc3.seq.patterns.eventpatterns import Pbind
+    from sc3.seq.patterns.listpatterns import Pseq
+    from sc3.seq.patterns.funcpatterns import Pfunc
+    boot()
+    stm, main = _env['stm'], _env['main']
+    e = case['esp']
+    log, states, count, box = [], [], [0], {}
+
+    def step():
+        count[0] += 1
+        n = count[0]
+        for j, at in enumerate(e['reg']):
+            if at == n:
+                entry = CleanupEntry()          # what Pmono does with its synth
+                entry.add_function(lambda j=j: log.append(f'clean-up {j}'))
+        for at, op in e['ops']:
+            if at == n:
+                try:
+                    getattr(box['player'], op)()
+                    log.append(f'{op} accepted')
+                except stm.RoutineException:
+                    log.append(f'{op} refused')
+                except Exception as ex:
+                    log.append(f'{op} raised {type(ex).__name__}')
+        log.append(f'event {n}')
+        return n
+
+    signal.signal(signal.SIGALRM, _alarm)
+    signal.setitimer(signal.ITIMER_REAL, CASE_TIMEOUT)
+    try:
+        pattern = Pbind({'degree': Pseq(list(range(e['n']))), 'dur': 0.25, 'n': Pfunc(step)})
+        player = box['player'] = EventStreamPlayer(stm.stream(pattern), {})
+        player.mute()
+        for _ in range(e['n'] + 2):
+            try:
+                player.next()
+                states.append(player.state.name)
+            except stm.StopStream as ex:
+                states.append(f'{type(ex).__name__}/{player.state.name}')
+            except Exception as ex:
+                states.append(f'raised {type(ex).__name__}/{player.state.name}')
+    except Hang:
+        log.append('HANG')
+    except BaseException as ex:
+        log.append(f'CRASH:{type(ex).__name__}:{str(ex)[:80]}')
+    finally:
+        signal.setitimer(signal.ITIMER_REAL, 0)
+        if main.current_tt is not main.main_tt:
+            main.current_tt = main.main_tt
+    return [{'line': '', 'x': [], 'esp': {'log': log, 'states': states}}]
+
+
 def run(payload):
-    return [run_case(c) for c in payload['cases']]
+    return [run_esp(c) if c.get('kind') == 'esp' else run_case(c) for c in payload['cases']]
